@@ -619,6 +619,9 @@ func deriveStore(rng *RNG, T *Config, opt genOpt) *Config {
 			}
 		}
 		p.Rules = uniqueRuleIds(rs)
+		if opt.maxRules <= 6 && len(p.Rules) > 12 {
+			p.Rules = p.Rules[:12]
+		}
 		if rng.Chance(60) {
 			Shuffle(rng, p.Rules)
 		}
@@ -780,10 +783,11 @@ func uniqServices(ss []Service) []Service {
 
 // genCase draws one case of the named stream.
 func genCase(rng *RNG, stream string, thorough bool) *Case {
+	// at most 12 rules per policy after merging the three files (6 + 3 + 3): up to 12 elements Go's
+	// slices.SortFunc is a stable insertion sort, which is what the model implements; the streams
+	// big (no ties) and bigties (oracle only) go beyond
 	opt := genOpt{maxRules: 6}
-	if thorough {
-		opt.maxRules = 9
-	}
+	_ = thorough
 	switch stream {
 	case "big":
 		opt.maxRules, opt.noTies = 20, true
